@@ -200,7 +200,9 @@ Record gravdesc := mkG { g_inv : stage;         (* stage invalidated by the Para
                          g_sets : list (bool*bool) }. (* setters excluded, magnitude, direction, zeroHeight: (invalidates cache, guarded) *)
 Record fsdesc := mkF { f_en_inv : stage;        (* stage invalidated by the force-enabled flags *)
                        f_flag_dep : stage;      (* highest stage whose realization resets cachedForcesAreValid *)
-                       f_flag_by : stage }.     (* stage that fills the position-only cache *)
+                       f_flag_by : stage;       (* stage that fills the position-only cache *)
+                       f_zdot_cleared : bool }. (* realizeSubsystemDynamicsImpl clears the subsystem's z-derivatives before the
+                                                   enabled elements write theirs (commit c50039ce) *)
 Record mcache := mkMC { mc_dep : stage; mc_by : stage; mc_q : bool; mc_u : bool; mc_z : bool; mc_ces : list nat }.
 Record mdesc := mkMD { md_opt_inv : stage; md_inst_inv : stage;
                        md_caches : list mcache }.   (* treePosition, treeVelocity, compositeBodyInertia, articulatedBodyInertia, articulatedBodyVelocity *)
@@ -292,8 +294,12 @@ Definition build (c:code) (m:mspec) : table :=
               ++ map (fun i => SV (v_lock m i)) (seq 0 (ms_nlock m)) ++ [SV V_T]) None None ] in
   mkT vars res.
 
-(** the same table with, appended, the z-derivative slot of every force element whose class writes one: written by the
-    element's own realizeAcceleration, which the force subsystem calls only while the element is enabled *)
+(** the full table: [build] plus, appended, the z-derivative slot of every force element whose class writes one.  It is
+    written by the element's own realizeDynamics / realizeAcceleration, which the force subsystem calls only while the
+    element is enabled.  If the subsystem clears its z-derivatives at every Dynamics realization ([f_zdot_cleared], the code
+    since c50039ce) the slot is an ordinary result (zero while disabled, a function of the enable flag); if it does not
+    (the code before), the slot is memory that is never cleared and is rewritten only while the element is enabled
+    ([r_skip]) -- such a table is not well-formed *)
 Definition r_zdot (m:mspec) (k:nat) := S (r_accel m) + k.
 Definition build_z (c:code) (m:mspec) : table :=
   let T := build c m in
@@ -302,4 +308,4 @@ Definition build_z (c:code) (m:mspec) : table :=
       (t_res T ++ map (fun p => let e := fst p in let k := cls c (snd p) in
                                 mkR 8 (Some 8) None
                                     ([SV (v_en m e); SR R_POSKIN; SR R_VELKIN] ++ map (fun j => SV (v_par c m e j)) (seq 0 (length (e_par k))))
-                                    None (Some (v_en m e))) zs).
+                                    None (if f_zdot_cleared (c_fsub c) then None else Some (v_en m e))) zs).
